@@ -21,8 +21,8 @@ def record(prop, failure, tier, concrete=True):
     }
     found = False
     try:
-        if not concrete:
-            raise ImportError()
+        if not concrete or os.environ.get("VERIF_NO_CONCRETE") or os.path.exists("/tmp/seed/NO_CONCRETE"):
+            raise ImportError()   # (debug switch used while batch-evaluating seeded changes: skip the expensive concrete replay)
         import concrete as concrete_mod
         ci = concrete_mod.find_and_replay(prop, failure)
         if ci:
